@@ -159,8 +159,11 @@ def discharge(check_id, job, pr, out, replay_kind, describe=None, timeout_ms=200
             path = write_replay(check_id, rk, inputs, note="obligation: %s" % name)
             ok, detail = run_replay(path)
             if ok:
-                out.d["violations"].append({"obligation": name, "replay": path, "inputs": jsonable(model),
-                                            "detail": detail[-2000:], "kind": rk, "job": job})
+                viol = {"obligation": name, "replay": path, "inputs": jsonable(model),
+                        "detail": detail[-2000:], "kind": rk, "job": job}
+                if meta.get("key"):
+                    viol["key"] = meta["key"]
+                out.d["violations"].append(viol)
                 verdict = "violated"
                 break
             try:
@@ -193,6 +196,11 @@ def discharge(check_id, job, pr, out, replay_kind, describe=None, timeout_ms=200
             continue
         if verdict == "violated":
             out.d["sat"] += 1
+            v = out.d["violations"][-1]
+            key = v.get("key")
+            if not (key and known_match(load_known()[0], check_id, key)):
+                # a new, reproduced violation: nothing more to learn from this job
+                raise symx.Stop()
         elif verdict in ("unknown", "unreproduced"):
             out.d["unknown"] += 1
             out.d["inconclusive"].append({"obligation": name, "why": verdict, "path": pr.index, "job": job})
@@ -251,8 +259,16 @@ def main(check_id, modname, jobs, tier, seed, meta, finding_key=None):
         results = [_worker(a) for a in args]
     else:
         ctx = mp.get_context("fork")
+        results = []
+        known0 = load_known()[0]
         with ctx.Pool(min(nproc, len(jobs))) as pool:
-            results = list(pool.imap_unordered(_worker, args, chunksize=1))
+            for r in pool.imap_unordered(_worker, args, chunksize=1):
+                results.append(r)
+                fresh = [v for v in r.get("violations", [])
+                         if not (v.get("key") and known_match(known0, check_id, v["key"]))]
+                if fresh and os.environ.get("VERIF_ALL_VIOLATIONS") != "1":
+                    pool.terminate()   # a reproduced violation decides the run; do not burn the budget
+                    break
     agg = dict(paths=0, obligations=0, discharged=0, unknown=0, queries=0, solver_time=0.0, cut_bound=0,
                feas_queries=0, feas_time=0.0, feas_unknown=0)
     names = {}
@@ -283,7 +299,7 @@ def main(check_id, modname, jobs, tier, seed, meta, finding_key=None):
     new_violations = []
     known_hits = []
     for v in violations:
-        key = finding_key(v) if finding_key else None
+        key = v.get("key") or (finding_key(v) if finding_key else None)
         line = known_match(known, check_id, key) if key else None
         if line:
             known_hits.append((key, line, v))
@@ -355,7 +371,7 @@ def main(check_id, modname, jobs, tier, seed, meta, finding_key=None):
             print("INCONCLUSIVE vacuous run (no path / no obligation)", file=sys.stderr)
         return 2
     # every obligation not accounted for as discharged must be a known finding
-    if agg["discharged"] + len(violations) < agg["obligations"]:
+    if agg["discharged"] + len(violations) < agg["obligations"] and not new_violations:
         print("INCONCLUSIVE accounting mismatch", file=sys.stderr)
         return 2
     return 0
